@@ -113,6 +113,34 @@ def seed_corpus(chk, root):
             ls = list(lines)
             ls[hdr] = b" ".join([toks[0], repr(variant[0]).encode(), repr(variant[1]).encode()] + toks[3:])
             gfiles.append((sel, b"\n".join(ls)))
+    # c.d.f. rows that break one clause of the row predicate each, everything else valid: first value negative, a value above 1, one
+    # decreasing step, last value below 1, first value of an E2 row negative (rows are re-encoded with the documented '^0 ... !1' shorthand)
+    for sel, t in list(gfiles):
+        if sel != 0:
+            continue
+        lines = t.split(b"\n")
+        rows = [i for i, l in enumerate(lines) if l.startswith(b"^") or b"!" in l or (i > 2 and l and l[:1].isdigit())]
+        rows = [i for i in rows if len(lines[i].split()) >= 3]
+        if not rows:
+            continue
+        for ri in (rows[0], rows[min(1, len(rows) - 1)], rows[len(rows) // 2]):
+            toks = lines[ri].split()
+            for variant in range(5):
+                tk = list(toks)
+                j0 = 1 if tk[0].startswith(b"^") else 0
+                if variant == 0:
+                    tk[j0] = b"-5"
+                elif variant == 1:
+                    tk[max(j0, len(tk) // 2)] = b"20000000"
+                elif variant == 2 and len(tk) - j0 >= 3:
+                    tk[j0], tk[j0 + 1] = tk[j0 + 1], tk[j0]
+                elif variant == 3:
+                    tk[-1] = tk[-2] if len(tk) >= 2 and not tk[-2].startswith(b"^") else b"1"
+                else:
+                    tk[j0] = b"-0.25"
+                ls = list(lines)
+                ls[ri] = b" ".join(tk)
+                gfiles.append((0, b"\n".join(ls)))
     for sel, t in gfiles:
         open(os.path.join(corp["fz_ga"], "s%03d" % k), "wb").write(bytes([sel]) + t)
         k += 1
